@@ -157,6 +157,60 @@ func scenario(c conf) *vm.Scenario {
 	return sc
 }
 
+// rotation: G goroutines select on an unchanged round-robin set; the total is a whole number of cycles, so
+// every endpoint must have been returned exactly its share (strict rotation / exact weighted cycle also
+// when the cursor is shared by concurrent selectors).
+func rotationScenario(name string, weighted bool, eps []endpoint.Endpoint, share map[string]int, g, each int) *vm.Scenario {
+	var bad []string
+	counts := map[string]int{}
+	sc := &vm.Scenario{Name: name}
+	sc.Reset = func() { bad = nil; counts = map[string]int{} }
+	sc.Main = func() {
+		s := roundrobin.New(weighted)
+		s.Refresh(eps)
+		done := make(chan struct{}, g)
+		for i := 0; i < g; i++ {
+			vm.GoNamed("selector", func() {
+				for k := 0; k < each; k++ {
+					e, err := s.Select(msg(1))
+					if err != nil {
+						bad = append(bad, "select-failed-although-set-never-empty")
+						continue
+					}
+					counts[e.Host]++
+				}
+				vm.Send(done, struct{}{})
+			})
+		}
+		for i := 0; i < g; i++ {
+			vm.Recv(done)
+		}
+		cycle := 0
+		for _, n := range share {
+			cycle += n
+		}
+		cycles := g * each / cycle
+		for h, n := range share {
+			if counts[h] != n*cycles {
+				bad = append(bad, fmt.Sprintf("round-robin-rotation-broken-under-concurrent-selectors\n%d goroutines x %d selections = %d cycles: %s returned %d times, its share is %d (all: %v)", g, each, cycles, h, counts[h], n*cycles, counts))
+				break
+			}
+		}
+		vm.Log("counts %v", counts)
+	}
+	sc.Check = func(r *vm.Result) string {
+		switch r.Status {
+		case vm.StOK:
+		case vm.StPanic:
+			return "panic: " + strings.SplitN(r.PanicMsg, "\n", 2)[0] + "\n" + r.PanicStk
+		default:
+			return "concurrent-selection-" + r.Status.String() + "\n" + strings.Join(r.Blocked, ",")
+		}
+		return e1.Multi(bad, r.ObsString())
+	}
+	return sc
+}
+
 // racePass runs the same bodies free-running on the uninstrumented packages under
 // the Go race detector (checks/c13race) and reports data races inside TarsGo.
 func racePass(run *common.Run) (ran bool, races int) {
@@ -243,7 +297,29 @@ func main() {
 			add("remove last", []endpoint.Endpoint{A}, "remove", []endpoint.Endpoint{A})
 		}
 	}
+	{
+		A, B, C := ep(1, 0, 0), ep(2, 0, 0), ep(3, 0, 0)
+		one := func(es ...endpoint.Endpoint) map[string]int {
+			m := map[string]int{}
+			for _, e := range es {
+				m[e.Host] = 1
+			}
+			return m
+		}
+		// unweighted: 2 and 3 endpoints, 2-3 goroutines, whole cycles in total; every start position
+		cases = append(cases,
+			e1.Case{Sc: rotationScenario("roundrobin rotation AB 2x2", false, []endpoint.Endpoint{A, B}, one(A, B), 2, 2), Opt: vm.Options{Bound: -1, Prune: true}, Budget: budget, MinOutcomes: 1},
+			e1.Case{Sc: rotationScenario("roundrobin rotation AB 2x3", false, []endpoint.Endpoint{A, B}, one(A, B), 2, 3), Opt: vm.Options{Bound: -1, Prune: true}, Budget: budget, MinOutcomes: 1},
+			e1.Case{Sc: rotationScenario("roundrobin rotation ABC 2x3", false, []endpoint.Endpoint{A, B, C}, one(A, B, C), 2, 3), Opt: vm.Options{Bound: -1, Prune: true}, Budget: budget, MinOutcomes: 1},
+			e1.Case{Sc: rotationScenario("roundrobin rotation ABC 3x2", false, []endpoint.Endpoint{A, B, C}, one(A, B, C), 3, 2), Opt: vm.Options{Bound: -1, Prune: true}, Budget: budget, MinOutcomes: 1},
+		)
+		// static weights 100:100 -> a cycle of 10+10; 2 goroutines x 20 selections, pre-emption bound 2
+		WA, WB := ep(1, 100, 1), ep(2, 100, 1)
+		cases = append(cases, e1.Case{Sc: rotationScenario("roundrobin weighted rotation 100:100 2x20", true, []endpoint.Endpoint{WA, WB},
+			map[string]int{WA.Host: 10, WB.Host: 10}, 2, 20), Opt: vm.Options{Bound: 2, Prune: true}, Budget: budget, MinOutcomes: 1})
+	}
 	e1.Main(run, cases, []string{
+		"rotation: 2-3 goroutines selecting on an unchanged round-robin set, whole cycles in total, exact per-endpoint counts (unweighted: all interleavings; weighted 100:100: pre-emption bound 2)",
 		"2 selecting goroutines (2 selections each) and 1 updater on each selector; all interleavings at mutex/atomic operations, all random draws enumerated; fingerprint-pruned, unbounded",
 		"a concurrent selection may return a member of the set before or after the update; afterwards only members of the new set",
 	})
